@@ -166,7 +166,7 @@ def _ks_job(k):
     ncrit = 2 if k % 2 == 0 else 4
     nel = int(rng.choice([1, 2, 3, 7, 50, 100, 200])) if k % 3 else int(rng.integers(1, 101))
     sigma = float(rng.choice([1e6, 2e8, 4.2e8, 1e9]))
-    rho = float(rng.choice([100.0, 50.0, 10.0, 500.0]))
+    rho = float(rng.choice([100.0, 50.0, 10.0, 500.0, 1000.0, 5000.0]))  # a declared public option: loose to very tight aggregation
     pattern = k % 6
     N = nel * ncrit
     top = float(10.0 ** rng.uniform(0, 12))
